@@ -240,4 +240,9 @@ class ClassicallyControlledOperation(raw_types.Operation):
         if not self._conditions:
             return subop_qasm
         condition_qasm = " && ".join(protocols.qasm(c, args=args) for c in self._conditions)
-        return f'if ({condition_qasm}) {subop_qasm}'
+        # The sub-operation may expand to several statements (or to none, e.g. a global phase):
+        # an `if` guards a single statement, so every statement gets its own guard.
+        return ''.join(
+            f'if ({condition_qasm}) {line}' if line.strip() and not line.lstrip().startswith('//') else line
+            for line in subop_qasm.splitlines(keepends=True)
+        )
